@@ -110,9 +110,21 @@ class Check:
         `generated`: callables that (re)write Generated/*.lean from /repo first."""
         module = module or "BlochVerif.Props." + self.pid
         gen_notes = []
+        gen_failed = []
         for g in generated:
-            gen_notes.append(g())
+            try:
+                gen_notes.append(g())
+            except Exception as e:   # the translator no longer understands the source: the tie is broken
+                gen_failed.append("%s: %s" % (getattr(g, "__name__", "table"), e))
+                gen_notes.append("FAILED " + gen_failed[-1])
         self.extra["generated_tables"] = gen_notes
+        if gen_failed:
+            for t in gen_failed:
+                self.obligations.append(("translator " + t.split(":")[0], False, t))
+            buildlib.lake_build(["driver"])
+            self.extra["lake_errors"] = gen_failed
+            self.build_log = "\n".join(gen_failed)
+            return False
         path = os.path.join(LEAN, module.replace(".", "/") + ".lean")
         thms = []
         if os.path.exists(path):
